@@ -51,6 +51,18 @@ func (v *View) delegated(a int) *big.Int {
 	}
 	return s
 }
+
+// unbondingEntries: number of entries of oracle a still in the unbonding queue (a staking slash can cut an entry to 0
+// without removing it)
+func (v *View) unbondingEntries(a int) int {
+	n := 0
+	for _, u := range v.Ubds {
+		if u[0].Int64() == int64(a) {
+			n++
+		}
+	}
+	return n
+}
 func (v *View) unbonding(a int) *big.Int {
 	s := big.NewInt(0)
 	for _, u := range v.Ubds {
@@ -339,7 +351,11 @@ func checkStep(op Op, class int, pre, post *View, joined map[int]int64, redelega
 		pend := pre.unbonding(op.A)
 		pen := penalty(r0, pre.Fraction)
 		if class != 0 {
-			if pend.Sign() == 0 && pre.BalD[op.A].Cmp(pen) >= 0 {
+			if pre.unbondingEntries(op.A) == 0 && pre.BalD[op.A].Sign() > 0 && pre.BalD[op.A].Cmp(pen) < 0 && pre.delegated(op.A).Cmp(big.NewInt(1000)) < 0 {
+				// everything has matured, but a staking-side slash left less than the penalty computed from the recorded stake
+				fail("C13:penalty-exceeds-remaining:withdrawal-refused", "oracle %d was removed by governance and its unbonding has matured, but only %s is left at the delegate address (staking slashed its validator) and the penalty computed from the RECORDED stake is %s: the withdrawal is refused, for ever", op.A, pre.BalD[op.A], pen)
+			}
+			if pre.unbondingEntries(op.A) == 0 && pre.BalD[op.A].Cmp(pen) >= 0 {
 				fail("C13:unbond-inverted:after-maturity-rejected", "oracle %d was removed by governance, its unbonding has matured (%s at the delegate address, penalty %s) and the withdrawal is refused", op.A, pre.BalD[op.A], pen)
 			}
 			break
@@ -351,7 +367,7 @@ func checkStep(op Op, class int, pre, post *View, joined map[int]int64, redelega
 		if new(big.Int).Add(paid, pen).Cmp(pre.BalD[op.A]) != 0 || post.BalD[op.A].Sign() != 0 {
 			fail("C13:unbond:amount", "oracle %d: paid %s, penalty %s, delegate balance was %s", op.A, paid, pen, pre.BalD[op.A])
 		}
-		if pend.Sign() > 0 {
+		if pre.unbondingEntries(op.A) > 0 {
 			fail("C13:unbond-inverted:before-maturity-forfeits-stake", "oracle %d withdrew while %s of its stake was still unbonding: records deleted, that stake will mature into the keyless delegate address", op.A, pend)
 		}
 	}
